@@ -50,9 +50,12 @@ def parse_errors(stderr):
     return recs
 
 
-def run_verus(path, timeout, threads=8, rlimit=None):
+def run_verus(path, timeout, threads=8, rlimit=None, plain=False):
     env = dict(os.environ)
-    env['VERUS_Z3_PATH'] = Z3WRAP
+    if plain:
+        env.pop('VERUS_Z3_PATH', None)   # Verus' own Z3 options for nonlinear queries (better at inequalities)
+    else:
+        env['VERUS_Z3_PATH'] = Z3WRAP    # smt.arith.nl true for nonlinear queries (better at large identities)
     cmd = ['verus', path, '--output-json', '--time', '--num-threads', str(threads), '--multiple-errors', '20']
     if rlimit:
         cmd += ['--rlimit', str(rlimit)]
@@ -130,6 +133,24 @@ def run_unit(template, src_root='/repo', workdir=None, timeout=600, threads=8, w
                                              'success': fb['success'], 'time_us': fb.get('time-micros', 0)})
                     res['solver_ms'] += fb.get('time-micros', 0) / 1000.0
         recs = parse_errors(r['stderr'])
+        if '//@dual-nl' in open(template).read() and any(classify(x) in ('verification', 'resource') for x in recs):
+            # Every by(nonlinear_arith) assertion is an independent query; it is valid if EITHER Z3 configuration proves it.
+            # Re-run with Verus' own nonlinear options and keep only the failures common to both runs.
+            r2 = run_verus(gen_path, timeout, threads, rlimit=3, plain=True)
+            recs2 = parse_errors(r2['stderr'])
+            bad2 = {x['line'] for x in recs2 if classify(x) in ('verification', 'resource', 'tool')}
+            nl_line = lambda ln: ln is not None and any('by(nonlinear_arith)' in t for t in gen_lines[max(0, ln - 1):ln + 1])
+            kept = []
+            for x in recs:
+                if classify(x) in ('verification', 'resource') and nl_line(x['line']) and x['line'] not in bad2:
+                    continue   # proved in the second configuration
+                kept.append(x)
+            res['dual_nl'] = {'first_run_messages': len(recs), 'kept_after_second_run': len(kept), 'second_run_wall_s': r2['wall_s']}
+            recs = kept
+            if not any(classify(x) in ('verification', 'resource', 'tool') for x in recs) and js is not None:
+                vr0 = js.get('verification-results', {})
+                vr0['verified'] = vr0.get('verified', 0) + vr0.get('errors', 0)
+                vr0['errors'] = 0
         tool_errs = []
         for rec in recs:
             c = classify(rec)
